@@ -227,6 +227,10 @@ def build_app(kind):
         routes.append(Route('/d%d/spyrender' % depth, lambda: Response('patched'), methods=['PATCH']))
         routes.append(Route('/d%d/norender' % depth, ep, middlewares=mws[:depth]))
         routes.append(Route('/d%d/spyrender' % depth, ep, rn, middlewares=mws[:depth]))
+        # ... and a later route on the same path that would answer: only an error *marked* non-breaking lets the request
+        # get that far - never an uncaught exception, a non-Response result or an ordinary HTTP error
+        routes.append(Route('/d%d/norender' % depth, lambda: Response('later sibling', status=299)))
+        routes.append(Route('/d%d/spyrender' % depth, lambda: Response('later sibling', status=299)))
     routes.append(Route('/ok', lambda: Response('fine', mimetype='text/plain')))
     routes.append(Route('/item/<x>', lambda x: Response('item %s' % x, mimetype='text/plain'), methods=['GET']))
     # '+debug-flag': the application is told debug=True *and* given its handler explicitly - the handler is what counts
@@ -285,6 +289,8 @@ def _expected(case):
     from clastic import errors
     act, where, handler = case['act'], case['where'], case['handler']
     norender = case['path'].endswith('norender')
+    if act[0] in ('raise_http', 'return_http') and not act[2]:
+        return ('status', 299)          # marked non-breaking: the later route on the path answers
     if act[0] in ('raise_http', 'return_http'):
         code = getattr(errors, act[1]).code or 200
         if handler == 'render-error-returns-other':
